@@ -83,6 +83,20 @@ theorem vorSpace_ok (n : Nat) (tris : List (Nat × Nat × Nat)) (cap : Option Na
   obtain ⟨t, htm, hp⟩ := (mem_vorAdj tris i j).mp hj
   exact ⟨j, mem_triPairs_lt (ht t htm) hp, rfl⟩
 
+theorem vorSpaceAreas_ok (n : Nat) (tris : List (Nat × Nat × Nat)) (areas : List (Nat × Nat))
+    (ht : ∀ t ∈ tris, t.1 < n ∧ t.2.1 < n ∧ t.2.2 < n) : SpaceOK (vorSpaceAreas n tris areas) :=
+  ⟨(vorSpace_ok n tris none ht).closed, rangeCoords_nodup n⟩
+
+/-- `int(area * 500)` on the exact area `num/den`: the integer `k` with `k ≤ 500 · num/den < k + 1` -/
+theorem roundFloat_spec (num den : Nat) (hd : 0 < den) :
+    roundFloat num den * den ≤ 500 * num ∧ 500 * num < (roundFloat num den + 1) * den := by
+  unfold roundFloat
+  have h1 := Nat.div_mul_le_self (num * 500) den
+  have h2 := Nat.lt_div_mul_add (a := num * 500) hd
+  constructor
+  · omega
+  · rw [Nat.add_mul]; omega
+
 /-! ### views -/
 
 theorem dictUpdate_of_nodup {α : Type} [DecidableEq α] (acc l : List α) (h : (acc ++ l).Nodup) :
